@@ -253,6 +253,10 @@ pub enum ResponseHandlingError {
     MismatchedLength,
 }
 
+#[cfg(pendulum_project_ntpd_rs_verif)]
+#[path = "/verif/hooks/ntp_proto/bloom_probe.rs"]
+mod verif_probe;
+
 #[cfg(test)]
 mod tests {
     use super::*;
